@@ -70,7 +70,7 @@ func (h *HTTPS) Close() {
 }
 
 func (h *HTTPS) rec(text, class, dev string, accepted bool) {
-	h.Trans = append(h.Trans, Rec{Point: h.point, Text: text, Class: class, Dev: dev, Accepted: accepted})
+	h.Trans = append(h.Trans, Rec{Batch: h.point, Point: h.point, Text: text, Class: class, Dev: dev, Accepted: accepted})
 }
 
 func (h *HTTPS) serve(w http.ResponseWriter, r *http.Request) {
@@ -85,6 +85,11 @@ func (h *HTTPS) serve(w http.ResponseWriter, r *http.Request) {
 		desc += "?" + q
 	}
 	class := h.classify(r)
+	// the transcript never holds the secrets themselves
+	desc = strings.Replace(desc, "key="+h.Key, "key=<key>", 1)
+	if i := strings.Index(desc, "&password="); i >= 0 {
+		desc = desc[:i] + "&password=<password>"
+	}
 	switch dev {
 	case DevStall:
 		h.rec(desc, class, dev, false)
